@@ -184,7 +184,7 @@ ly_err_new(struct ly_err_item **err, LY_ERR ecode, LY_VECODE vecode, char *data_
 static struct ly_ctx_err_rec *
 ly_err_get_rec(const struct ly_ctx *ctx)
 {
-    struct ly_ctx_err_rec rec, *match;
+    struct ly_ctx_err_rec rec, *rec_p = &rec, **match = NULL, *ret;
 
     /* prepare record */
     rec.tid = pthread_self();
@@ -194,12 +194,15 @@ ly_err_get_rec(const struct ly_ctx *ctx)
     pthread_mutex_lock((pthread_mutex_t *)&ctx->lyb_hash_lock);
 
     /* get the pointer to the matching record */
-    lyht_find(ctx->err_ht, &rec, lyht_hash((void *)&rec.tid, sizeof rec.tid), (void **)&match);
+    lyht_find(ctx->err_ht, &rec_p, lyht_hash((void *)&rec.tid, sizeof rec.tid), (void **)&match);
+
+    /* the record itself is allocated separately, it stays valid even if the hash table is resized after the unlock */
+    ret = match ? *match : NULL;
 
     /* UNLOCK */
     pthread_mutex_unlock((pthread_mutex_t *)&ctx->lyb_hash_lock);
 
-    return match;
+    return ret;
 }
 
 /**
@@ -211,23 +214,28 @@ ly_err_get_rec(const struct ly_ctx *ctx)
 static struct ly_ctx_err_rec *
 ly_err_new_rec(const struct ly_ctx *ctx)
 {
-    struct ly_ctx_err_rec new, *rec;
+    struct ly_ctx_err_rec *new;
     LY_ERR r;
 
     /* insert a new record */
-    new.err = NULL;
-    new.tid = pthread_self();
+    new = calloc(1, sizeof *new);
+    LY_CHECK_RET(!new, NULL);
+    new->tid = pthread_self();
 
     /* reuse lock */
     /* LOCK */
     pthread_mutex_lock((pthread_mutex_t *)&ctx->lyb_hash_lock);
 
-    r = lyht_insert(ctx->err_ht, &new, lyht_hash((void *)&new.tid, sizeof new.tid), (void **)&rec);
+    r = lyht_insert(ctx->err_ht, &new, lyht_hash((void *)&new->tid, sizeof new->tid), NULL);
 
     /* UNLOCK */
     pthread_mutex_unlock((pthread_mutex_t *)&ctx->lyb_hash_lock);
 
-    return r ? NULL : rec;
+    if (r) {
+        free(new);
+        return NULL;
+    }
+    return new;
 }
 
 LIBYANG_API_DEF const struct ly_err_item *
